@@ -8,6 +8,10 @@ ENV = "GOFLAGS=-mod=mod GOPROXY=off GOSUMDB=off GOTOOLCHAIN=local"
 
 # id -> (technique, level text, level note, design ref)
 CLAIMS = {
+ "C08": ("dispatch totality, must-dataflow of checked casts over go/cfg, ordering-domain truth tables of the returned comparisons, abstract execution of the Boolean combinator arms over all truth assignments (go/types AST)",
+         "Decides structural necessary conditions for ALL element values and condition arguments, for the core evaluator: (B1) every gripql.Condition and every HasExpression kind has an arm; (B2) in every ordering arm each numeric operand of the returned comparison comes from a cast.ToFloat64E whose error was tested on that path and no error-swallowing cast is used (non-numbers never match, never raise); (B3) for gt, gte, lt, lte, inside, outside, between the returned comparison equals the documented predicate on every ordering of (value, bound[s]), with operand roles taken from the cast arguments; (B4) the And/Or/Not arms return all/any/negation on every truth assignment of up to three sub-expressions (abstract execution of the arm's source), which gives De Morgan, double negation and reordering. Does not decide reflect.DeepEqual semantics behind eq/neq/within/without/contains, what cast accepts as a number, or missing-field handling.",
+         "Trusted: go/types, go/cfg; documented predicates transcribed from gripql/has_operators.go and the query documentation (table c08documented).",
+         "DESIGN.md §4 C08"),
  "C14": ("transfer-table extraction by path exploration of each compile arm's go/cfg graph specialised on (input type, mark type), compared between the two compilers on the reachable typing states; Boolean evaluation of polarity arguments; ordering-domain truth tables for range lowering (go/types AST)",
          "Decides for ALL statement sequences over the steps the Mongo compiler supports: (Y1) the per-statement typing transfer (input type, mark type) → {reject} ∪ {accept→type [+mark update]} of mongo.Compiler.Compile equals that of core.StatementProcessor (core.Validate folded in where it is run) on every typing state reachable under the core transfers — both compilers are folds of these transfers, so they accept the same traversals and assign the same result and mark types; open guards are compared by presence only. For ALL has-expressions: (Y2) the Not arm complements the polarity, And/Or/Condition arms pass it on, And/Or dualise under negation, conditions are wrapped in $not exactly under negation; (Y3) every gripql.Condition has a translation, gt/gte/lt/lte map to the operator with the core evaluator's comparison, and inside/outside/between lower to comparisons with the same truth table as the core predicate on every ordering of (value, lower, upper). Does not decide MongoDB's semantics on missing/array/differently-typed fields.",
          "Trusted: go/types, go/cfg; the dictionary of Mongo operator meanings on scalars.",
